@@ -226,6 +226,10 @@ func HarnessC11RoundTrip(afc, flags, level int) {
 	mx.WriteData(&MuxerData{PID: 0x100, PES: &PESData{Header: &PESHeader{StreamID: 0xc0}, Data: []byte{1, 2, 3, 4, 5}}})
 	pos := len(sink.buf)
 	vassert("C11.rt.prior", pos == 3*188)
+	// ... and a packet it had to reject (payload of 184 bytes beside a one-byte adaptation field) left nothing behind
+	bad := &Packet{Header: PacketHeader{PID: 0x200, HasAdaptationField: true, HasPayload: true}, AdaptationField: &PacketAdaptationField{IsOneByteStuffing: true}, Payload: make([]byte, 184)}
+	nb, errb := mx.WritePacket(bad)
+	vassert("C11.rt.rejected", errb != nil && nb == 0 && len(sink.buf) == pos)
 	n, err := mx.WritePacket(p)
 	vassert("C11.rt.write.err", err == nil)
 	vassert("C11.rt.n", n == 188)
